@@ -97,6 +97,9 @@ func PrintJobResult(w io.Writer, r *sym.JobResult, detail bool) {
 		}
 		n := 0
 		for _, o := range r.Obls {
+			if o.Status == "unknown" {
+				fmt.Fprintf(w, "   UNKNOWN %s %s %dms path=%s\n", o.ID, o.Where, o.Millis, o.PathDesc)
+			}
 			if o.Status == "violated" && o.Known != "" {
 				continue
 			}
